@@ -50,6 +50,60 @@ theorem expm1_deriv (x : ℝ) : HasDerivAt (fun t => Real.exp t - 1) (expm1D x) 
 
 theorem expm1_hes (x : ℝ) : HasDerivAt expm1D (expm1H x) x := Real.hasDerivAt_exp x
 
+
+/-! ### further elementary bindings (round 4) -/
+
+/-- `amplgsl_sf_log` / `amplgsl_sf_log_abs`: value log|x| (Mathlib's `Real.log` is log|x|), `deriv = 1 / x`, `hes = -deriv * deriv` -/
+noncomputable def sfLogD (x : ℝ) : ℝ := 1 / x
+noncomputable def sfLogH (x : ℝ) : ℝ := -sfLogD x * sfLogD x
+theorem sf_log_deriv (x : ℝ) (hx : x ≠ 0) : HasDerivAt Real.log (sfLogD x) x := by
+  unfold sfLogD; rw [one_div]; exact Real.hasDerivAt_log hx
+theorem sf_log_hes (x : ℝ) (hx : x ≠ 0) : HasDerivAt sfLogD (sfLogH x) x := by
+  have h := (hasDerivAt_const x (1 : ℝ)).div (hasDerivAt_id x) hx
+  unfold sfLogH
+  show HasDerivAt (fun t : ℝ => 1 / t) _ x
+  refine h.congr_deriv ?_
+  unfold sfLogD
+  simp only [id]
+  field_simp
+  ring
+
+/-- `amplgsl_sf_log_1plusx_mx`: value log(1+x) − x, `sub = 1/(1+x)`, `deriv = sub - 1`, `hes = -sub * sub` -/
+noncomputable def l1pmxD (x : ℝ) : ℝ := 1 / (1 + x) - 1
+noncomputable def l1pmxH (x : ℝ) : ℝ := -(1 / (1 + x)) * (1 / (1 + x))
+theorem log_1plusx_mx_deriv (x : ℝ) (hx : x + 1 ≠ 0) : HasDerivAt (fun t => Real.log (1 + t) - t) (l1pmxD x) x := by
+  have h := (log1p_deriv x hx).sub (hasDerivAt_id x)
+  unfold l1pmxD
+  refine h.congr_deriv ?_
+  unfold log1pD
+  rw [add_comm x 1]
+theorem log_1plusx_mx_hes (x : ℝ) (hx : x + 1 ≠ 0) : HasDerivAt l1pmxD (l1pmxH x) x := by
+  have h := (log1p_hes x hx).sub_const 1
+  unfold l1pmxH
+  show HasDerivAt (fun t : ℝ => 1 / (1 + t) - 1) _ x
+  have e : (fun t : ℝ => 1 / (1 + t) - 1) = (fun t => log1pD t - 1) := by
+    funext t; unfold log1pD; rw [add_comm 1 t]
+  rw [e]
+  refine h.congr_deriv ?_
+  unfold log1pH log1pD
+  rw [add_comm x 1]
+
+/-- `amplgsl_sf_legendre_P2`: value (3x² − 1)/2, `deriv = 3x`, `hes = 3`;  `amplgsl_sf_legendre_P3`: (5x³ − 3x)/2, `7.5x² − 1.5`, `15x` -/
+theorem legendre_P2_deriv (x : ℝ) : HasDerivAt (fun t : ℝ => (3 * t ^ 2 - 1) / 2) (3 * x) x := by
+  have h := (((hasDerivAt_pow 2 x).const_mul 3).sub_const 1).div_const 2
+  refine h.congr_deriv ?_
+  simp; ring
+theorem legendre_P2_hes (x : ℝ) : HasDerivAt (fun t : ℝ => 3 * t) 3 x := by
+  simpa using (hasDerivAt_id x).const_mul 3
+theorem legendre_P3_deriv (x : ℝ) : HasDerivAt (fun t : ℝ => (5 * t ^ 3 - 3 * t) / 2) (7.5 * x * x - 1.5) x := by
+  have h := (((hasDerivAt_pow 3 x).const_mul 5).sub ((hasDerivAt_id x).const_mul 3)).div_const 2
+  refine h.congr_deriv ?_
+  simp; ring
+theorem legendre_P3_hes (x : ℝ) : HasDerivAt (fun t : ℝ => 7.5 * t * t - 1.5) (15 * x) x := by
+  have h := (((hasDerivAt_id x).const_mul 7.5).mul (hasDerivAt_id x)).sub_const 1.5
+  refine h.congr_deriv ?_
+  simp; ring
+
 /-! ### the three one-variable facts behind hypot and hypot3 -/
 
 /-- d/dt √(t² + c) = t / √(t² + c) -/
